@@ -121,7 +121,7 @@ func init() {
 		typ, _ := strconv.ParseInt(a[0], 16, 64)
 		enc, _ := strconv.ParseInt(a[1], 16, 64)
 		it, rest, ok := cread(arg(a[2]))
-		if !ok || len(rest) != 0 {
+		if (!ok || len(rest) != 0) && enc != 3 { // (enc 3: the library's COSE_Key parser is the oracle, also for what cread cannot read)
 			return "err"
 		}
 		wantEC := typ == 10 || typ == 11
@@ -295,7 +295,10 @@ func RunC04(c *core.Ctx) {
 	c.Rep.Rule = "cases = vouchers created by the real DI service and extended 0..4 times with the library, for every key type and public-key encoding " +
 		"(quick: a covering subset), then: one bit flipped in every byte (thorough: every bit) of the encoded voucher, entries swapped / duplicated / dropped / " +
 		"spliced from a voucher of another device, header or HMAC from another voucher, wrong device secret, wrong manufacturer-key hash, generic CBOR " +
-		"mutations; model (extracted voucher checks, hashes/HMAC/signatures/key parsing via stdlib oracle) vs Voucher.Verify*/OwnerPublicKey step by step; " +
+		"mutations, and by byte surgery (voucher_more.go): the header / protected-header / payload / OVEExtra byte strings altered from the inside (trailing bytes, " +
+		"wrapper emptied, removed or doubled, non-canonical and indefinite heads, duplicated keys, extra labels and elements, reserved additional info), also with the " +
+		"entry signed again by the right key; every hash-type number (HMAC, cert-chain hash, both entry hashes) set to each of {-16,-43,-44,5,6,7,0,1}; entry chains " +
+		"rebuilt and re-signed with the type numbers of the other family; model (extracted voucher checks, hashes/HMAC/signatures/key parsing via stdlib oracle) vs Voucher.Verify*/OwnerPublicKey step by step; " +
 		"monitor on the implementation: honest vouchers pass every step and name the last key, any change to a bound part fails some step, nothing panics; " +
 		"ExtendVoucher succeeds only for the current owner key of the manufacturer key's type/size. non-trivial = voucher decoded; distinct = distinct case line"
 	c.Trivial = func(o core.Obs) bool { return o.Impl == "err-decode" }
@@ -571,6 +574,8 @@ func RunC04(c *core.Ctx) {
 				for i := 0; i < nm; i++ {
 					try(mutate(c.Rng, vb), secret, int64(kh.Algorithm), kh.Value, "cbor-mutation")
 				}
+				// wrappers altered from the inside, hash-type numbers, rebuilt chains (voucher_more.go)
+				voucherMore(c, cf.spec, n, vb, secret, kh, wantOwner, append([]crypto.Signer{env.Key(cf.spec, "mfg")}, signers...))
 			}
 			if loop != nil && len(loop.Entries) == 4 {
 				cut := *loop
